@@ -390,7 +390,7 @@ theorem location_shape (d : Dict) (k : Nat) (idx : Int) (hk : k ∈ keys d) (hnd
   · rw [hl, he, h1, List.drop_append_of_le_length hf]
     simp
 
-/-! ### the part-by-part variant (`fixes/C19_6.diff`) agrees when no value contains a newline -/
+/-! ### the part-by-part variant (live code, repo 2c1674c) when no value contains a newline -/
 
 theorem splitLines_no_nl : ∀ v : List Char, '\n' ∉ v → splitLines v = [v] := by
   intro v
